@@ -74,11 +74,15 @@ def puts : List Op → List Tok
   | .put t :: ops => t :: puts ops
   | _ :: ops => puts ops
 
-theorem puts_eq_filterMap (ops : List Op) :
-    puts ops = ops.filterMap (fun op => match op with | .put t => some t | _ => none) := by
+/-- the payload of a `put` -/
+def Op.payload : Op → Option Tok
+  | .put t => some t
+  | _ => none
+
+theorem puts_eq_filterMap (ops : List Op) : puts ops = ops.filterMap Op.payload := by
   induction ops with
   | nil => rfl
-  | cons op ops ih => cases op <;> simp [puts, ih]
+  | cons op ops ih => cases op <;> simp [puts, ih, Op.payload, List.filterMap_cons]
 
 @[simp] theorem Port.step_log (p : Port) (op : Op) : (p.step op).log = p.log ++ puts [op] := by
   cases op <;> simp [Port.step, puts]
@@ -254,6 +258,18 @@ def Disciplined : Port → List Op → Prop
         | .get c => (p.recv c).all (fun t => !t.term) = true
         | _ => True) ∧ Disciplined (p.step op) rest
 
+instance Disciplined.dec : (ops : List Op) → (p : Port) → Decidable (Disciplined p ops)
+  | [], _ => isTrue trivial
+  | .get c :: rest, p =>
+      have := Disciplined.dec rest (p.step (.get c))
+      inferInstanceAs (Decidable ((p.recv c).all (fun t => !t.term) = true ∧ Disciplined (p.step (.get c)) rest))
+  | .put t :: rest, p =>
+      have := Disciplined.dec rest (p.step (.put t))
+      inferInstanceAs (Decidable (True ∧ Disciplined (p.step (.put t)) rest))
+  | .close c :: rest, p =>
+      have := Disciplined.dec rest (p.step (.close c))
+      inferInstanceAs (Decidable (True ∧ Disciplined (p.step (.close c)) rest))
+
 /-- queue-local invariant: only the last received token may be a termination token, and not even that one
     while a `get` is pending -/
 def Q.TermOk (q : Q) : Prop :=
@@ -335,6 +351,23 @@ def CloseDisc : Port → List Op → Prop
       (match op with
         | .close c => (p.qs c = none ∨ p.recv c ≠ []) ∧ Op.close c ∉ rest
         | _ => True) ∧ CloseDisc (p.step op) rest
+
+instance : (o : Option Q) → Decidable (o = none)
+  | none => isTrue rfl
+  | some _ => isFalse (fun h => by cases h)
+
+instance CloseDisc.dec : (ops : List Op) → (p : Port) → Decidable (CloseDisc p ops)
+  | [], _ => isTrue trivial
+  | .close c :: rest, p =>
+      have := CloseDisc.dec rest (p.step (.close c))
+      inferInstanceAs (Decidable (((p.qs c = none ∨ p.recv c ≠ []) ∧ Op.close c ∉ rest) ∧
+        CloseDisc (p.step (.close c)) rest))
+  | .put t :: rest, p =>
+      have := CloseDisc.dec rest (p.step (.put t))
+      inferInstanceAs (Decidable (True ∧ CloseDisc (p.step (.put t)) rest))
+  | .get c :: rest, p =>
+      have := CloseDisc.dec rest (p.step (.get c))
+      inferInstanceAs (Decidable (True ∧ CloseDisc (p.step (.get c)) rest))
 
 /-- queue-local counting invariant; `L` = length of the log, `n` = number of `close` calls so far -/
 def Q.CountOk (L n : Nat) (q : Q) : Prop :=
@@ -467,8 +500,8 @@ theorem no_err_of_countInv {p : Port} {ncl : Nat → Nat} (hI : CountInv p ncl) 
 
 /-! ## Filter port -/
 
-theorem filterRun_log (admits : Tok → Bool) (p : Port) (ops : List Op) :
-    (filterRun admits p ops).log = p.log ++ (puts ops).filter (fun t => t.term || admits t) := by
+theorem filterRun_log (keep : Tok → Bool) (p : Port) (ops : List Op) :
+    (filterRun keep p ops).log = p.log ++ (puts ops).filter (fun t => t.term || keep t) := by
   induction ops generalizing p with
   | nil => simp [filterRun, puts]
   | cons op ops ih =>
@@ -478,13 +511,13 @@ theorem filterRun_log (admits : Tok → Bool) (p : Port) (ops : List Op) :
     cases op with
     | put t =>
       simp only [filterStep, filterPut, puts]
-      by_cases h : (t.term || admits t) = true
+      by_cases h : (t.term || keep t) = true
       · simp [h]
       · simp [h]
     | get c => simp [filterStep, puts]
     | close c => simp [filterStep, puts]
 
-theorem inv_filterStep {admits : Tok → Bool} {p : Port} (hI : Inv p) (op : Op) : Inv (filterStep admits p op) := by
+theorem inv_filterStep {keep : Tok → Bool} {p : Port} (hI : Inv p) (op : Op) : Inv (filterStep keep p op) := by
   cases op with
   | put t =>
     simp only [filterStep, filterPut]
@@ -494,10 +527,462 @@ theorem inv_filterStep {admits : Tok → Bool} {p : Port} (hI : Inv p) (op : Op)
   | get c => exact inv_get hI c
   | close c => exact inv_close hI c
 
-theorem inv_filterRun {admits : Tok → Bool} {p : Port} (hI : Inv p) (ops : List Op) :
-    Inv (filterRun admits p ops) := by
+theorem inv_filterRun {keep : Tok → Bool} {p : Port} (hI : Inv p) (ops : List Op) :
+    Inv (filterRun keep p ops) := by
   induction ops generalizing p with
   | nil => exact hI
   | cons op ops ih => exact ih (inv_filterStep hI op)
+
+/-! ## Inter-workflow port -/
+
+/-- what a satisfied rule puts on its target for token `t` -/
+def act (r : Rule) (t : Tok) : List Tok :=
+  (if r.propagate then [t] else []) ++ (if r.terminate then [recoveredTok] else [])
+
+/-- the tags still missing after having seen the tokens `ts` -/
+def remaining (T : List Nat) (ts : List Tok) : List Nat := ts.foldl (fun T t => T.erase t.tag) T
+
+/-- the tokens on which a rule with missing tags `T` fires when it sees the stream `ts` -/
+def fire : List Nat → List Tok → List Tok
+  | _, [] => []
+  | T, t :: ts => (if (T.erase t.tag).isEmpty then [t] else []) ++ fire (T.erase t.tag) ts
+
+/-- payloads of the `put`s of data tokens, in order -/
+def dataPuts : List IWOp → List Tok
+  | [] => []
+  | .put t :: ops => if t.term then dataPuts ops else t :: dataPuts ops
+  | _ :: ops => dataPuts ops
+
+/-- payloads of all `put`s, in order -/
+def allPuts : List IWOp → List Tok
+  | [] => []
+  | .put t :: ops => t :: allPuts ops
+  | _ :: ops => allPuts ops
+
+theorem dataPuts_eq_filter (ops : List IWOp) : dataPuts ops = (allPuts ops).filter (fun t => !t.term) := by
+  induction ops with
+  | nil => rfl
+  | cons op ops ih =>
+    cases op with
+    | put t => cases h : t.term <;> simp [dataPuts, allPuts, ih, h]
+    | add r => simpa [dataPuts, allPuts] using ih
+    | get c => simpa [dataPuts, allPuts] using ih
+    | close c => simpa [dataPuts, allPuts] using ih
+
+@[simp] theorem act_removeTag (r : Rule) (x : Nat) (t : Tok) : act (r.removeTag x) t = act r t := rfl
+@[simp] theorem act_removeTag_fn (r : Rule) (x : Nat) : act (r.removeTag x) = act r := rfl
+@[simp] theorem removeTag_target (r : Rule) (x : Nat) : (r.removeTag x).target = r.target := rfl
+@[simp] theorem removeTag_tags (r : Rule) (x : Nat) : (r.removeTag x).tags = r.tags.erase x := rfl
+
+@[simp] theorem remaining_nil (T : List Nat) : remaining T [] = T := rfl
+@[simp] theorem remaining_cons (T : List Nat) (t : Tok) (ts : List Tok) :
+    remaining T (t :: ts) = remaining (T.erase t.tag) ts := rfl
+theorem remaining_append (T : List Nat) (a b : List Tok) :
+    remaining T (a ++ b) = remaining (remaining T a) b := by
+  simp [remaining, List.foldl_append]
+@[simp] theorem remaining_empty (ts : List Tok) : remaining [] ts = [] := by
+  induction ts with
+  | nil => rfl
+  | cons t ts ih => simpa using ih
+
+theorem fire_append (T : List Nat) (a b : List Tok) :
+    fire T (a ++ b) = fire T a ++ fire (remaining T a) b := by
+  induction a generalizing T with
+  | nil => simp [fire]
+  | cons t a ih => simp [fire, ih]
+
+theorem fire_empty (ts : List Tok) : fire [] ts = ts := by
+  induction ts with
+  | nil => rfl
+  | cons t ts ih => simp [fire, ih]
+
+theorem fire_never (T : List Nat) (ts : List Tok) (h : remaining T ts ≠ []) : fire T ts = [] := by
+  induction ts generalizing T with
+  | nil => rfl
+  | cons t ts ih =>
+    simp only [remaining_cons] at h
+    have hne : T.erase t.tag ≠ [] := by
+      intro h0; rw [h0] at h; exact h (remaining_empty ts)
+    simp [fire, ih _ h, hne]
+
+theorem fire_at_completion (T : List Nat) (a b : List Tok) (t : Tok) (h1 : remaining T a ≠ [])
+    (h2 : remaining T (a ++ [t]) = []) : fire T (a ++ t :: b) = t :: b := by
+  rw [fire_append, fire_never T a h1]
+  rw [remaining_append] at h2
+  simp only [remaining_cons, remaining_nil] at h2
+  simp [fire, h2, fire_empty]
+
+/-! ### `putTarget`, `exec` -/
+
+@[simp] theorem IW.putTarget_rules (s : IW) (tg : Target) (t : Tok) : (s.putTarget tg t).rules = s.rules := by
+  cases tg <;> rfl
+
+theorem IW.putTarget_own_log (s : IW) (tg : Target) (t : Tok) :
+    (s.putTarget tg t).own.log = s.own.log ++ (if tg = .self then [t] else []) := by
+  cases tg <;> simp [IW.putTarget]
+
+theorem IW.putTarget_ext_log (s : IW) (tg : Target) (t : Tok) (k : Nat) :
+    ((s.putTarget tg t).ext k).log = (s.ext k).log ++ (if tg = .ext k then [t] else []) := by
+  cases tg with
+  | self => simp [IW.putTarget]
+  | ext j =>
+    by_cases h : k = j
+    · subst h; simp [IW.putTarget]
+    · have h' : ¬ j = k := fun e => h e.symm
+      simp [IW.putTarget, h, h']
+
+theorem IW.putTarget_own_inv (s : IW) (tg : Target) (t : Tok) (h : Inv s.own) : Inv (s.putTarget tg t).own := by
+  cases tg with
+  | self => exact inv_put h t
+  | ext j => exact h
+
+@[simp] theorem IW.exec_rules (s : IW) (r : Rule) (t : Tok) : (s.exec r t).rules = s.rules := by
+  unfold IW.exec; cases r.propagate <;> cases r.terminate <;> simp
+
+theorem IW.exec_own_log (s : IW) (r : Rule) (t : Tok) :
+    (s.exec r t).own.log = s.own.log ++ (if r.target = .self then act r t else []) := by
+  unfold IW.exec act
+  cases r.propagate <;> cases r.terminate <;> by_cases h : r.target = .self <;>
+    simp [IW.putTarget_own_log, h]
+
+theorem IW.exec_ext_log (s : IW) (r : Rule) (t : Tok) (k : Nat) :
+    ((s.exec r t).ext k).log = (s.ext k).log ++ (if r.target = .ext k then act r t else []) := by
+  unfold IW.exec act
+  cases r.propagate <;> cases r.terminate <;> by_cases h : r.target = .ext k <;>
+    simp [IW.putTarget_ext_log, h]
+
+theorem IW.exec_own_inv (s : IW) (r : Rule) (t : Tok) (h : Inv s.own) : Inv (s.exec r t).own := by
+  unfold IW.exec
+  cases r.propagate <;> cases r.terminate <;> simp [IW.putTarget_own_inv, h]
+
+/-! ### the loop of `put` -/
+
+/-- the satisfied rules with target `tg` -/
+def hits (tg : Target) (rs : List Rule) : List Rule := rs.filter (fun r => r.satisfied && r.target == tg)
+
+@[simp] theorem hits_nil (tg : Target) : hits tg [] = [] := rfl
+theorem hits_cons (tg : Target) (r : Rule) (rs : List Rule) :
+    hits tg (r :: rs) = (if r.satisfied = true ∧ r.target = tg then [r] else []) ++ hits tg rs := by
+  unfold hits
+  by_cases h1 : r.satisfied = true <;> by_cases h2 : r.target = tg <;> simp [h1, h2]
+
+theorem IW.putLoop_spec (t : Tok) (rs : List Rule) : ∀ (s : IW) (done : List Rule) (m : Bool),
+    (IW.putLoop t rs s done m).2.1 = done ++ rs.map (·.removeTag t.tag) ∧
+    (IW.putLoop t rs s done m).2.2 = (m || !(hits .self (rs.map (·.removeTag t.tag))).isEmpty) ∧
+    (IW.putLoop t rs s done m).1.own.log =
+      s.own.log ++ (hits .self (rs.map (·.removeTag t.tag))).flatMap (act · t) ∧
+    (∀ k, ((IW.putLoop t rs s done m).1.ext k).log =
+      (s.ext k).log ++ (hits (.ext k) (rs.map (·.removeTag t.tag))).flatMap (act · t)) ∧
+    (Inv s.own → Inv (IW.putLoop t rs s done m).1.own) := by
+  induction rs with
+  | nil => intro s done m; simp [IW.putLoop]
+  | cons r rs ih =>
+    intro s done m
+    simp only [IW.putLoop, List.map_cons, hits_cons]
+    by_cases hs : (r.removeTag t.tag).satisfied = true
+    · simp only [hs, if_true, true_and]
+      obtain ⟨h1, h2, h3, h4, h5⟩ := ih (s.exec (r.removeTag t.tag) t) (done ++ [r.removeTag t.tag])
+        (m || (r.removeTag t.tag).target == .self)
+      refine ⟨by rw [h1]; simp, ?_, ?_, ?_, fun hI => h5 (IW.exec_own_inv _ _ _ hI)⟩
+      · rw [h2]
+        by_cases ht : r.target = .self
+        · simp [ht]
+        · simp [ht, beq_eq_false_iff_ne.mpr ht]
+      · rw [h3, IW.exec_own_log]
+        by_cases ht : r.target = .self <;> simp [ht]
+      · intro k
+        rw [h4, IW.exec_ext_log]
+        by_cases ht : r.target = .ext k <;> simp [ht]
+    · simp only [hs, Bool.false_eq_true, if_false, false_and, List.nil_append]
+      obtain ⟨h1, h2, h3, h4, h5⟩ := ih s (done ++ [r.removeTag t.tag]) m
+      exact ⟨by rw [h1]; simp, h2, h3, h4, h5⟩
+
+/-- what a `put` of the data token `t` appends to the port's own log -/
+def selfOut (rules : List Rule) (t : Tok) : List Tok :=
+  if (hits .self (rules.map (·.removeTag t.tag))).isEmpty then [t]
+  else (hits .self (rules.map (·.removeTag t.tag))).flatMap (act · t)
+
+theorem IW.put_data (s : IW) (t : Tok) (ht : t.term = false) :
+    (s.put t).rules = s.rules.map (·.removeTag t.tag) ∧
+    (∀ k, ((s.put t).ext k).log =
+      (s.ext k).log ++ (hits (.ext k) (s.rules.map (·.removeTag t.tag))).flatMap (act · t)) ∧
+    (s.put t).own.log = s.own.log ++ selfOut s.rules t ∧
+    (Inv s.own → Inv (s.put t).own) := by
+  obtain ⟨h1, h2, h3, h4, h5⟩ := IW.putLoop_spec t s.rules s [] false
+  unfold IW.put selfOut
+  simp only [ht, Bool.false_eq_true, if_false]
+  generalize IW.putLoop t s.rules s [] false = res at *
+  obtain ⟨s1, rules, matched⟩ := res
+  simp only [List.nil_append, Bool.false_or] at h1 h2 h3 h4 h5
+  subst h1 h2
+  by_cases hm : (hits .self (s.rules.map (·.removeTag t.tag))).isEmpty = true
+  · simp only [hm, Bool.not_true, Bool.false_eq_true, if_false, if_true]
+    refine ⟨trivial, h4, ?_, fun hI => inv_put (h5 hI) t⟩
+    rw [Port.put_log, h3]
+    rw [List.isEmpty_iff] at hm
+    simp [hm]
+  · simp only [hm, Bool.not_false, if_true]
+    exact ⟨trivial, h4, h3, h5⟩
+
+theorem IW.put_term (s : IW) (t : Tok) (ht : t.term = true) :
+    s.put t = { s with own := s.own.put t } := by
+  unfold IW.put; simp [ht]
+
+/-! ### `add_inter_port` -/
+
+theorem IW.replay_spec (ts : List Tok) : ∀ (s : IW) (r : Rule),
+    (IW.replay ts s r).2 = { r with tags := remaining r.tags ts } ∧
+    (IW.replay ts s r).1.rules = s.rules ∧
+    (IW.replay ts s r).1.own.log =
+      s.own.log ++ (if r.target = .self then (fire r.tags ts).flatMap (act r) else []) ∧
+    (∀ k, ((IW.replay ts s r).1.ext k).log =
+      (s.ext k).log ++ (if r.target = .ext k then (fire r.tags ts).flatMap (act r) else [])) ∧
+    (Inv s.own → Inv (IW.replay ts s r).1.own) := by
+  induction ts with
+  | nil => intro s r; simp [IW.replay, fire]
+  | cons t ts ih =>
+    intro s r
+    simp only [IW.replay, fire, remaining_cons]
+    by_cases hs : (r.removeTag t.tag).satisfied = true
+    · have hs' : (r.tags.erase t.tag).isEmpty = true := hs
+      simp only [hs, hs', if_true]
+      obtain ⟨h1, h2, h3, h4, h5⟩ := ih (s.exec (r.removeTag t.tag) t) (r.removeTag t.tag)
+      simp only [removeTag_target, removeTag_tags, act_removeTag_fn] at h1 h3 h4
+      refine ⟨h1, by rw [h2]; simp, ?_, ?_, fun hI => h5 (IW.exec_own_inv _ _ _ hI)⟩
+      · rw [h3, IW.exec_own_log]
+        by_cases ht : r.target = .self <;> simp [ht]
+      · intro k
+        rw [h4, IW.exec_ext_log]
+        by_cases ht : r.target = .ext k <;> simp [ht]
+    · have hs' : ¬ (r.tags.erase t.tag).isEmpty = true := hs
+      simp only [hs, hs', Bool.false_eq_true, if_false, List.nil_append]
+      obtain ⟨h1, h2, h3, h4, h5⟩ := ih s (r.removeTag t.tag)
+      simp only [removeTag_target, removeTag_tags, act_removeTag_fn] at h1 h3 h4
+      exact ⟨h1, h2, h3, h4, h5⟩
+
+theorem IW.addRule_spec (s : IW) (r : Rule) :
+    (s.addRule r).rules =
+      s.rules ++ [{ r with tags := remaining r.tags (s.own.log.filter (fun t => !t.term)) }] ∧
+    (s.addRule r).own.log = s.own.log ++
+      (if r.target = .self then (fire r.tags (s.own.log.filter (fun t => !t.term))).flatMap (act r) else []) ∧
+    (∀ k, ((s.addRule r).ext k).log = (s.ext k).log ++
+      (if r.target = .ext k then (fire r.tags (s.own.log.filter (fun t => !t.term))).flatMap (act r) else [])) ∧
+    (Inv s.own → Inv (s.addRule r).own) := by
+  obtain ⟨h1, h2, h3, h4, h5⟩ := IW.replay_spec (s.own.log.filter (fun t => !t.term)) s r
+  unfold IW.addRule
+  dsimp only
+  generalize IW.replay (s.own.log.filter (fun t => !t.term)) s r = res at *
+  obtain ⟨s1, r'⟩ := res
+  simp only at h1 h2 h3 h4 h5
+  subst h1
+  exact ⟨rfl, h3, h4, h5⟩
+
+/-! ### one step, summarised -/
+
+@[simp] theorem IW.run_nil (s : IW) : s.run [] = s := rfl
+@[simp] theorem IW.run_cons (s : IW) (op : IWOp) (ops : List IWOp) :
+    s.run (op :: ops) = (s.step op).run ops := rfl
+
+theorem IW.step_own_inv (s : IW) (op : IWOp) (h : Inv s.own) : Inv (s.step op).own := by
+  cases op with
+  | put t =>
+    cases ht : t.term with
+    | true => simp only [IW.step, IW.put_term s t ht]; exact inv_put h t
+    | false => exact (IW.put_data s t ht).2.2.2 h
+  | add r => exact (IW.addRule_spec s r).2.2.2 h
+  | get c => exact inv_get h c
+  | close c => exact inv_close h c
+
+theorem IW.run_own_inv (s : IW) (ops : List IWOp) (h : Inv s.own) : Inv (s.run ops).own := by
+  induction ops generalizing s with
+  | nil => exact h
+  | cons op ops ih => exact ih _ (IW.step_own_inv s op h)
+
+/-! ### histories -/
+
+theorem hits_none (tg : Target) (rs : List Rule) (h : ∀ r ∈ rs, r.target ≠ tg) : hits tg rs = [] := by
+  unfold hits
+  rw [List.filter_eq_nil_iff]
+  intro r hr
+  simp [h r hr]
+
+theorem hits_append (tg : Target) (a b : List Rule) : hits tg (a ++ b) = hits tg a ++ hits tg b := by
+  simp [hits]
+
+theorem hits_unique (tg : Target) (pre post : List Rule) (r : Rule) (h : ∀ r' ∈ pre ++ post, r'.target ≠ tg)
+    (hr : r.target = tg) : hits tg (pre ++ r :: post) = if r.satisfied = true then [r] else [] := by
+  rw [hits_append, hits_cons, hits_none tg pre (fun r' h' => h r' (List.mem_append_left _ h')),
+    hits_none tg post (fun r' h' => h r' (List.mem_append_right _ h'))]
+  simp [hr]
+
+theorem map_removeTag_target (x : Nat) (tg : Target) (rs : List Rule) (h : ∀ r ∈ rs, r.target ≠ tg) :
+    ∀ r ∈ rs.map (·.removeTag x), r.target ≠ tg := by
+  intro r hr
+  rw [List.mem_map] at hr
+  obtain ⟨r0, h0, rfl⟩ := hr
+  exact h r0 h0
+
+/-- a rule that is the only one targeting the boundary port `k` determines what that port receives -/
+theorem IW.run_ext_log (k : Nat) (ops : List IWOp) : ∀ (s : IW) (pre post : List Rule) (r : Rule),
+    s.rules = pre ++ r :: post → r.target = .ext k → (∀ r' ∈ pre ++ post, r'.target ≠ .ext k) →
+    (∀ r', IWOp.add r' ∈ ops → r'.target ≠ .ext k) →
+    ((s.run ops).ext k).log = (s.ext k).log ++ (fire r.tags (dataPuts ops)).flatMap (act r) := by
+  induction ops with
+  | nil => intro s pre post r _ _ _ _; simp [dataPuts, fire]
+  | cons op ops ih =>
+    intro s pre post r hrules hr hothers hadds
+    have hadds' : ∀ r', IWOp.add r' ∈ ops → r'.target ≠ .ext k :=
+      fun r' h' => hadds r' (List.mem_cons_of_mem _ h')
+    rw [IW.run_cons]
+    cases op with
+    | put t =>
+      cases ht : t.term with
+      | true =>
+        simp only [IW.step, IW.put_term s t ht, dataPuts, ht, if_true]
+        exact ih _ pre post r hrules hr hothers hadds'
+      | false =>
+        obtain ⟨h1, h2, _, _⟩ := IW.put_data s t ht
+        have hothers' : ∀ r' ∈ pre.map (·.removeTag t.tag) ++ post.map (·.removeTag t.tag), r'.target ≠ .ext k := by
+          rw [← List.map_append]; exact map_removeTag_target _ _ _ hothers
+        have := ih (s.put t) (pre.map (·.removeTag t.tag)) (post.map (·.removeTag t.tag)) (r.removeTag t.tag)
+          (by rw [h1, hrules]; simp) hr hothers' hadds'
+        simp only [IW.step]
+        rw [this, h2 k, hrules, List.map_append, List.map_cons, hits_unique (.ext k) _ _ (r.removeTag t.tag) hothers' hr]
+        simp only [dataPuts, ht, Bool.false_eq_true, if_false, fire, List.flatMap_append, removeTag_tags,
+          act_removeTag_fn, Rule.satisfied]
+        by_cases he : (r.tags.erase t.tag).isEmpty = true <;> simp [he]
+    | add r2 =>
+      obtain ⟨h1, _, h3, _⟩ := IW.addRule_spec s r2
+      have hne : r2.target ≠ .ext k := hadds r2 List.mem_cons_self
+      have := ih (s.addRule r2) pre (post ++ [{ r2 with tags := remaining r2.tags (s.own.log.filter (fun t => !t.term)) }]) r
+        (by rw [h1, hrules]; simp) hr
+        (by
+          intro r' hr'
+          rw [← List.append_assoc, List.mem_append] at hr'
+          rcases hr' with hr' | hr'
+          · exact hothers r' hr'
+          · rw [List.mem_singleton] at hr'; subst hr'; exact hne)
+        hadds'
+      simp only [IW.step, dataPuts]
+      rw [this, h3 k]
+      simp [hne]
+    | get c => exact ih _ pre post r hrules hr hothers hadds'
+    | close c => exact ih _ pre post r hrules hr hothers hadds'
+
+theorem IW.add_run_ext_log (k : Nat) (s : IW) (r : Rule) (ops : List IWOp) (hr : r.target = .ext k)
+    (hothers : ∀ r' ∈ s.rules, r'.target ≠ .ext k) (hadds : ∀ r', IWOp.add r' ∈ ops → r'.target ≠ .ext k) :
+    ((s.run (.add r :: ops)).ext k).log =
+      (s.ext k).log ++ (fire r.tags (s.own.log.filter (fun t => !t.term) ++ dataPuts ops)).flatMap (act r) := by
+  obtain ⟨h1, _, h3, _⟩ := IW.addRule_spec s r
+  have := IW.run_ext_log k ops (s.addRule r) s.rules []
+    { r with tags := remaining r.tags (s.own.log.filter (fun t => !t.term)) } h1 hr
+    (by simpa using hothers) hadds
+  rw [IW.run_cons]
+  simp only [IW.step]
+  rw [this, h3 k, fire_append]
+  simp only [hr, if_true, List.flatMap_append, List.append_assoc]
+  rfl
+
+/-- what the own log receives when `r` (missing tags `T`) is the only rule targeting the port itself -/
+def ownSpec (r : Rule) : List Nat → List Tok → List Tok
+  | _, [] => []
+  | T, t :: ts =>
+      if t.term then t :: ownSpec r T ts
+      else (if (T.erase t.tag).isEmpty then act r t else [t]) ++ ownSpec r (T.erase t.tag) ts
+
+theorem ownSpec_removeTag (r : Rule) (x : Nat) : ownSpec (r.removeTag x) = ownSpec r := by
+  funext T ts
+  induction ts generalizing T with
+  | nil => rfl
+  | cons t ts ih => simp [ownSpec, ih]
+
+theorem IW.run_own_log_self (ops : List IWOp) : ∀ (s : IW) (pre post : List Rule) (r : Rule),
+    s.rules = pre ++ r :: post → r.target = .self → (∀ r' ∈ pre ++ post, r'.target ≠ .self) →
+    (∀ r', IWOp.add r' ∉ ops) →
+    (s.run ops).own.log = s.own.log ++ ownSpec r r.tags (allPuts ops) := by
+  induction ops with
+  | nil => intro s pre post r _ _ _ _; simp [allPuts, ownSpec]
+  | cons op ops ih =>
+    intro s pre post r hrules hr hothers hadds
+    have hadds' : ∀ r', IWOp.add r' ∉ ops := fun r' h' => hadds r' (List.mem_cons_of_mem _ h')
+    rw [IW.run_cons]
+    cases op with
+    | put t =>
+      cases ht : t.term with
+      | true =>
+        simp only [IW.step, IW.put_term s t ht, allPuts, ownSpec, ht, if_true]
+        rw [ih { s with own := s.own.put t } pre post r hrules hr hothers hadds']
+        simp
+      | false =>
+        obtain ⟨h1, _, h3, _⟩ := IW.put_data s t ht
+        have hothers' : ∀ r' ∈ pre.map (·.removeTag t.tag) ++ post.map (·.removeTag t.tag), r'.target ≠ .self := by
+          rw [← List.map_append]; exact map_removeTag_target _ _ _ hothers
+        have := ih (s.put t) (pre.map (·.removeTag t.tag)) (post.map (·.removeTag t.tag)) (r.removeTag t.tag)
+          (by rw [h1, hrules]; simp) hr hothers' hadds'
+        simp only [IW.step]
+        rw [this, h3, selfOut, hrules, List.map_append, List.map_cons,
+          hits_unique .self _ _ (r.removeTag t.tag) hothers' hr]
+        simp only [allPuts, ownSpec, ht, Bool.false_eq_true, if_false, removeTag_tags, ownSpec_removeTag,
+          Rule.satisfied]
+        by_cases he : (r.tags.erase t.tag).isEmpty = true <;> simp [he]
+    | add r2 => exact (hadds r2 List.mem_cons_self).elim
+    | get c =>
+      have := ih { s with own := s.own.get c } pre post r hrules hr hothers hadds'
+      simpa [IW.step, allPuts] using this
+    | close c =>
+      have := ih { s with own := s.own.close c } pre post r hrules hr hothers hadds'
+      simpa [IW.step, allPuts] using this
+
+theorem ownSpec_data (r : Rule) (hp : r.propagate = true) (T : List Nat) (ts : List Tok) :
+    (ownSpec r T ts).filter (fun t => !t.term) = ts.filter (fun t => !t.term) := by
+  induction ts generalizing T with
+  | nil => rfl
+  | cons t ts ih =>
+    cases ht : t.term with
+    | true => simp [ownSpec, ht, ih]
+    | false =>
+      by_cases he : (T.erase t.tag).isEmpty = true <;> cases hterm : r.terminate <;>
+        simp [ownSpec, ht, ih, he, act, hp, hterm, recoveredTok]
+
+theorem IW.run_own_log_noself (ops : List IWOp) : ∀ (s : IW), (∀ r' ∈ s.rules, r'.target ≠ .self) →
+    (∀ r', IWOp.add r' ∈ ops → r'.target ≠ .self) →
+    (s.run ops).own.log = s.own.log ++ allPuts ops := by
+  induction ops with
+  | nil => intro s _ _; simp [allPuts]
+  | cons op ops ih =>
+    intro s hrules hadds
+    have hadds' : ∀ r', IWOp.add r' ∈ ops → r'.target ≠ .self :=
+      fun r' h' => hadds r' (List.mem_cons_of_mem _ h')
+    rw [IW.run_cons]
+    cases op with
+    | put t =>
+      cases ht : t.term with
+      | true =>
+        simp only [IW.step, IW.put_term s t ht, allPuts]
+        rw [ih { s with own := s.own.put t } hrules hadds']
+        simp
+      | false =>
+        obtain ⟨h1, _, h3, _⟩ := IW.put_data s t ht
+        have hr' := map_removeTag_target t.tag .self _ hrules
+        simp only [IW.step, allPuts]
+        rw [ih (s.put t) (by rw [h1]; exact hr') hadds', h3, selfOut, hits_none _ _ hr']
+        simp
+    | add r2 =>
+      obtain ⟨h1, h2, _, _⟩ := IW.addRule_spec s r2
+      have hne : r2.target ≠ .self := hadds r2 List.mem_cons_self
+      simp only [IW.step, allPuts]
+      rw [ih (s.addRule r2) (by
+        rw [h1]; intro r' hr'
+        rw [List.mem_append, List.mem_singleton] at hr'
+        rcases hr' with hr' | hr'
+        · exact hrules r' hr'
+        · subst hr'; exact hne) hadds', h2]
+      simp [hne]
+    | get c =>
+      have := ih { s with own := s.own.get c } hrules hadds'
+      simpa [IW.step, allPuts] using this
+    | close c =>
+      have := ih { s with own := s.own.close c } hrules hadds'
+      simpa [IW.step, allPuts] using this
 
 end SFV.Port
